@@ -3,7 +3,7 @@
 # Confirms an agent-made change in a scratch worktree of /repo HEAD: demo passes pristine, fails with the patch,
 # the repository's own test suite still passes with the patch. Stores everything under /verif/seeded/<dest-name>/.
 SRCDIR=$1; NAME=$2; ID=$3
-WT=/tmp/wt/$ID   # the path the agent's build.sh defaults to
+WT=${WTROOT:-/tmp/wt}/$ID   # the path the agent's build.sh defaults to
 if [ -e $WT ]; then echo "$WT exists (agent still running?)"; exit 2; fi
 DEST=/verif/seeded/$NAME
 mkdir -p $DEST
